@@ -4,8 +4,8 @@ Session.setup."""
 import config_props
 
 PROP = "C18"
-LEAN_MODULES = ["PamsProps.C18", "PamsProps.SrcSession"]
-NAMESPACES = ["Pams.C18", "Pams.C18"]
+LEAN_MODULES = ["PamsProps.C18", "PamsProps.SrcSession", "PamsProps.SrcConfig"]
+NAMESPACES = ["Pams.C18", "Pams.C18", "Pams.C18"]
 DRIVERS = ["Config", "PyRun"]
 TRUSTED = [
     "keys, names and values are opaque codes; Python dict insertion order and str(int) injectivity (entity names) are modelled, not verified",
@@ -19,7 +19,7 @@ def run(ctx, model_available=True):
     res = config_props.run_C18(ctx, model_available=model_available)
     # (T2) the translated source of Session.setup under the mini-Python semantics, against CPython
     import py_checks
-    return py_checks.merge(res, ctx, ["session"], n_each=150, model_available=model_available)
+    return py_checks.merge(res, ctx, ["session", "config"], n_each=150, model_available=model_available)
 
 
 def search(ctx, res):
